@@ -77,7 +77,7 @@ return e'''
 
 def floors(tier):
     return {"oracle.visit==fresh-context": 1500, "sets.mutator-reader-pairs": 40, "sets.page-op-pairs": 150,
-            "counters.visit.kind.lua-reader": 100, "counters.visit.kind.soup-open": 50, "counters.foreign-contexts-created": 4,
+            "counters.visit.kind.lua-reader": 100, "counters.visit.kind.soup-open": 50, "counters.foreign-contexts-created": 4, "counters.config-victim-visits.ext": 9, "counters.config-victim-visits.alias": 9,
             "sets.ops": 6}
 
 
@@ -210,15 +210,36 @@ def _recv(fd):
     return json.loads(b.decode())
 
 
-def fresh_visits(db, visits):
+CONFIGS = {
+    "default": {},
+    # redefines an EXISTING tag (div as phrasing content, allowed inside span) and adds a new one
+    "ext": {"extension_tags": {"div": {"parents": ["phrasing"], "content": ["phrasing"]},
+                               "foo": {"parents": ["phrasing"], "content": ["phrasing"]}}},
+    "alias": {"parser_function_aliases": {"#invoque": "#invoke"}},
+    # redefines existing tags ONLY (same tag-name set as a default context, different nesting data)
+    "redef": {"extension_tags": {"div": {"parents": ["phrasing"], "content": ["phrasing"]},
+                                 "p": {"parents": ["phrasing"], "content": ["flow"]}}},
+}
+CONFIG_PAGES = [
+    {"name": "CfgNest", "kind": "config-sensitive", "text": "<span>a<div>b</div>c</span> <foo>x<b>y</b></foo> <div><foo>z</foo></div>"},
+    {"name": "CfgAlias", "kind": "config-sensitive", "text": "{{#invoque:reader|f|n=1}} {{#invoke:reader|f|n=2}}"},
+    {"name": "CfgTable", "kind": "config-sensitive", "text": "{|\n| <div>c</div> || <foo>d</foo>\n|}\n<p><div>q</div></p>"},
+]
+
+
+def new_ctx(db, cfg):
+    from wikitextprocessor import Wtp
+    return Wtp(db_path=db, quiet_output=True, quiet=True, **CONFIGS[cfg])
+
+
+def fresh_visits(db, visits, cfg="default"):
     """In a forked child: a brand-new default context performs the given visits in order; returns observations."""
     r, w = os.pipe()
     pid = os.fork()
     if pid == 0:
         os.close(r)
         try:
-            from wikitextprocessor import Wtp
-            ctx = Wtp(db_path=db, quiet_output=True, quiet=True)
+            ctx = new_ctx(db, cfg)
             out = [visit(ctx, p, op) for p, op in visits]
             _send(w, out)
         except BaseException as e:      # noqa
@@ -250,17 +271,17 @@ class BaselineServer:
                     q = _recv(self.req_r)
                     if q is None:
                         break
-                    _send(self.res_w, fresh_visits(db, q))
+                    _send(self.res_w, fresh_visits(db, q["visits"], q["cfg"]))
             finally:
                 os._exit(0)
         os.close(self.req_r)
         os.close(self.res_w)
         self.cache = {}
 
-    def get(self, visits):
-        key = json.dumps([[p["name"], op] for p, op in visits])
+    def get(self, visits, cfg="default"):
+        key = cfg + json.dumps([[p["name"], op] for p, op in visits])
         if key not in self.cache:
-            _send(self.req_w, visits)
+            _send(self.req_w, {"visits": visits, "cfg": cfg})
             self.cache[key] = _recv(self.res_r)
         return self.cache[key]
 
@@ -291,16 +312,16 @@ def foreign_contexts(obs):
     return made
 
 
-def run_history(db, hist, base, obs, record=True):
-    """hist: list of (page, op). Runs on ONE new long-lived default context; returns list of (index, diffkind, got, want)."""
-    from wikitextprocessor import Wtp
-    ctx = Wtp(db_path=db, quiet_output=True, quiet=True)
+def run_history(db, hist, base, obs, record=True, cfg="default"):
+    """hist: list of (page, op). Runs on ONE new long-lived context of configuration cfg; returns list of
+    (index, diffkind, got, want)."""
+    ctx = new_ctx(db, cfg)
     bad = []
     try:
         prev = None
         for i, (p, op) in enumerate(hist):
             got = visit(ctx, p, op)
-            want = base.get([(p, op)])[0]
+            want = base.get([(p, op)], cfg)[0]
             if record:
                 obs.check("visit==fresh-context")
                 obs.count("visit.kind." + p["kind"].split(":")[0])
@@ -389,6 +410,19 @@ def run_shard(spec):
         allpairs = [(m, r, op) for m in muts for r in readers for op in ("expand", "parse_all")]
         for m, r, op in allpairs[spec["idx"]::16]:
             hists.append([(m, "expand"), (r, op)])
+    # configuration victims: a context with OTHER options, created after default contexts (and after the foreign
+    # contexts above) exist in this process, must behave like the same configuration in a pristine process
+    for cfg in ("ext", "alias", "redef"):
+        ch = [(p, op) for p in CONFIG_PAGES for op in ("parse", "expand", "parse_all")]
+        rng.shuffle(ch)
+        b = run_history(db, ch, base, obs, cfg=cfg)
+        obs.count("config-victim-visits." + cfg, len(ch))
+        for i, d, got, want in b[:3]:
+            obs.violation("visit-differs(%s)/config=%s-context-created-after-other-contexts" % (d.split(":")[0], cfg),
+                          "visit %r differs from the same configuration in a pristine process: got %r want %r" % (
+                              describe([ch[i]]), {k: str(v)[:200] for k, v in got.items() if got.get(k) != want.get(k)},
+                              {k: str(v)[:200] for k, v in want.items() if got.get(k) != want.get(k)}),
+                          {"history": [[p, op] for p, op in ch[: i + 1]], "cfg": cfg})
     nmin = 0
     for hist in hists:
         bad = run_history(db, hist, base, obs)
@@ -423,7 +457,7 @@ def replay(case):
     base = BaselineServer(db)
     foreign_contexts(obs)
     hist = [(p, op) for p, op in case["history"]]
-    bad = run_history(db, hist, base, obs, record=False)
+    bad = run_history(db, hist, base, obs, record=False, cfg=case.get("cfg", "default"))
     base.close()
     import shutil
     shutil.rmtree(tmp, ignore_errors=True)
